@@ -915,12 +915,14 @@ fn run_one(region: &Region, data: &[u8]) -> String {
 fn worker() {
     std::panic::set_hook(Box::new(|_| {}));
     let region = Region::new(1 << 16);
+    // packets at the start of a large buffer (generator tag |big): up to 2^17 + a packet
+    let big = Region::new(3 << 16);
     let stdin = std::io::stdin();
     let stdout = std::io::stdout();
     for line in stdin.lock().lines() {
         let line = line.unwrap();
         let data = unhex(line.trim());
-        let r = run_one(&region, &data);
+        let r = run_one(if data.len() + 200 > (1 << 16) { &big } else { &region }, &data);
         let mut o = stdout.lock();
         writeln!(o, "{}", r).unwrap();
         o.flush().unwrap();
